@@ -667,6 +667,8 @@ def judge_defaults(ctx, env, K, eff, vals, case, label):
 
 def shard(ctx):
     env = get_env()
+    from vlib import repotests
+    repotests.run(ctx, 'C14', ['node-set-has'])
     # A exhaustive
     L = ctx.pick(3, 4)
     idx = 0
